@@ -220,7 +220,7 @@ def index_key(ix):
 def schema_view(tsnap):
     """Comparable view of one table: columns as a dict, indexes as a sorted
     multiset of (cols, unique, cond), fks, checks (expr only + names)."""
-    idx = sorted(index_key(i) for i in tsnap['indexes'])
+    idx = sorted((index_key(i) for i in tsnap['indexes']), key=repr)
     return {
         'columns': dict(tsnap['columns']),
         'indexes': idx,
